@@ -4,7 +4,7 @@ import "context"
 
 // C08: no packet or packet sequence makes the message-box swarm panic.
 
-//verif: cover=accepted,rejected bounds="every packet of 0..26 bytes: ParseMessage and every header getter"
+// verif: cover=accepted,rejected bounds="every packet of 0..26 bytes: ParseMessage and every header getter"
 func VH_C08_mbappParse() bool {
 	x := vBytes(26)
 	hdr, body, err := ParseMessage(x)
@@ -42,7 +42,7 @@ func vTellPacket(maxBody int) []byte {
 	return append(buf, vBytes(maxBody)...)
 }
 
-//verif: sched=coop time=concrete cover=delivered,pending bounds="two tell fragments from one source (counter 0/1, any totalSize/partIndex, partCount 0..3 and bodies 0..2 bytes (quick) / 0..7 and 0..3 (thorough)) through handleMessage, swarm mtu 8; collector sizes above 8 are refused by the mtu check"
+// verif: sched=coop time=concrete cover=delivered,pending bounds="two tell fragments from one source (counter 0/1, any totalSize/partIndex, partCount 0..3 and bodies 0..2 bytes (quick) / 0..7 and 0..3 (thorough)) through handleMessage, swarm mtu 8; collector sizes above 8 are refused by the mtu check"
 func VH_C08_mbappHandleSeq() bool {
 	var sent []vSent
 	var got []vGot
